@@ -98,7 +98,7 @@ func c11Gen(rt *rapid.T) c11Prog {
 	reqs := func() wOp {
 		op := gPick(rt, []wOp{
 			{K: "sub", T: "me"}, {K: "sub", T: "g0"}, {K: "sub", T: "p0"}, {K: "pub", T: "g0"}, {K: "pub", T: "sys"},
-			{K: "get", T: "me", A: "desc"}, {K: "get", T: "g0", A: "desc sub"}, {K: "set", T: "me", A: "public", B: "x"},
+			{K: "get", T: "me", A: "desc"}, {K: "get", T: "g0", A: "desc sub"}, {K: "get", T: "g0", A: "desc"}, {K: "get", T: "g0", A: "sub"}, {K: "get", T: "g0", A: "data"}, {K: "set", T: "me", A: "public", B: "x"},
 			{K: "set", T: "g0", A: "private", B: "y"}, {K: "leave", T: "g0"}, {K: "del", T: "g0", A: "msg", R: [][2]int{{1, 0}}},
 			{K: "note", T: "g0", A: "read", N: 1}, {K: "note", T: "g0", A: "kp"}, {K: "del", A: "user", U: 2},
 		}, "req")
@@ -135,6 +135,10 @@ func c11Gen(rt *rapid.T) c11Prog {
 				op = wOp{K: "login", S: 1, A: gPick(rt, []string{"nosuch", "", "anon", "code"}, "scheme"), B: "x"}
 			}
 			p.Ops = append(p.Ops, op)
+			if op.A == "basic" && gPct(rt, 40) {
+				// the client logs in again with whatever token the reply carried (also a 300 "validate credentials" reply carries one)
+				p.Ops = append(p.Ops, wOp{K: "login", S: 1, A: "token", B: "returned"})
+			}
 			if gPct(rt, 70) {
 				p.Ops = append(p.Ops, wOp{K: "get", S: 1, T: "me", A: "desc"})
 			}
@@ -146,6 +150,9 @@ func c11Gen(rt *rapid.T) c11Prog {
 			// the store fails while the credentials of the account are looked up during a login
 			p.Ops = append(p.Ops, wOp{K: "fault", N: 1, A: "CredGetAll"},
 				wOp{K: "login", S: 1, A: "basic", B: gPick(rt, []string{"alice1:" + c11Password, "alice2:" + c11Password}, "basic2")})
+			if gPct(rt, 50) {
+				p.Ops = append(p.Ops, wOp{K: "login", S: 1, A: "token", B: "returned"})
+			}
 			if gPct(rt, 70) {
 				p.Ops = append(p.Ops, wOp{K: "get", S: 1, T: "me", A: "desc"})
 			}
@@ -170,6 +177,7 @@ type c11Obs struct {
 	refused  int
 	served   int
 	reached  bool
+	retTok   bool // a login used the token handed out by an earlier login reply
 	unknown  bool // the session created an account and logged in as it: the model does not follow further
 }
 
@@ -333,6 +341,25 @@ func (o *c11Obs) After(w *wWorld, st *wStep) *kit.Viol {
 		want := -1
 		switch st.Op.A {
 		case "token":
+			if st.Op.B == "returned" {
+				// whose token it is is read from the request; it authenticates iff that account may log in
+				var req struct {
+					Login struct {
+						Secret []byte `json:"secret"`
+					} `json:"login"`
+				}
+				json.Unmarshal([]byte(st.Req), &req)
+				if len(req.Login.Secret) >= 18 {
+					u := w.userIdx(types.Uid(binary.LittleEndian.Uint64(req.Login.Secret[:8])))
+					// a token marked "not for logging in" (handed out in reply to such a token) never authenticates
+					noLogin := auth.Feature(binary.LittleEndian.Uint16(req.Login.Secret[16:18]))&auth.FeatureNoLogin != 0
+					if okUser, _ := o.userOK(u); u >= 0 && okUser && !noLogin {
+						want = u
+					}
+					o.retTok = true
+				}
+				break
+			}
 			sameAsValid := st.Op.B == "valid" || st.Op.B == "expiring" ||
 				(st.Op.B == "levelup" && st.Op.U >= 0 && st.Op.U < len(w.users) && w.users[st.Op.U].level == auth.LevelRoot)
 			if okUser, _ := o.userOK(st.Op.U); okUser && sameAsValid {
@@ -411,6 +438,11 @@ func (o *c11Obs) After(w *wWorld, st *wStep) *kit.Viol {
 		}
 		if code < 400 || changed != "" {
 			return kit.V("request-before-login:"+st.Op.K, "%s before login was answered %d (store: %s)", st.Req, code, changed)
+		}
+		for _, f := range frames {
+			if f.Ctrl == nil {
+				return kit.V("request-before-login-served:"+st.Op.K, "%s before login was answered %d and also produced %s", st.Req, code, wJSON(f))
+			}
 		}
 		o.refused++
 		return nil
@@ -500,6 +532,9 @@ func c11Exec(t *testing.T, r *kit.Run) func(c11Prog) kit.Outcome {
 		}
 		if obs.reached {
 			o.Classes = append(o.Classes, "reached-login")
+		}
+		if obs.retTok {
+			o.Classes = append(o.Classes, "login-with-returned-token")
 		}
 		if fail != "" {
 			o.Skip = true
